@@ -42,6 +42,10 @@ IR_RUNS.update({
             "thorough": [("MC", "vlog_read", 3), ("MC", "vlog_read", 12, 300)]},
     "C04": {"quick": [("MC", "vlog_rt", 2), ("MC", "vlog_rt", 10, 14)],
             "thorough": [("MC", "vlog_rt", 3), ("MC", "vlog_rt", 12, 300)]},
+    "C18": {"quick": [("MC", "eblif_read", 3), ("MC", "eblif_rt", 2), ("MC", "eblif_latch", 2), ("MC", "eblif_latch_rt", 3),
+                      ("MC", "eblif_read", 10, 14)],
+            "thorough": [("MC", "eblif_read", 4), ("MC", "eblif_rt", 3), ("MC", "eblif_latch", 4), ("MC", "eblif_latch_rt", 4),
+                         ("MC", "eblif_read", 12, 300)]},
     "C17": {"quick": [("MC", "edif_names", 0)], "thorough": [("MC", "edif_names", 0)]},
     "C05": {"quick": [("MC", "edif_read", 2), ("MC", "edif_read1", 1), ("MC", "edif_read", 10, 8)],
             "thorough": [("MC", "edif_read", 3), ("MC", "edif_read1", 3), ("MC", "edif_read", 12, 200)]},
@@ -57,6 +61,13 @@ IR_RUNS.update({
             "thorough": [("MC", "hier12", 5), ("MC", "hier12", 14, 1000)]},
 })
 IR_RULE = {
+    "C18": "abstract flat designs = reachable states of a build scope following spydrnet's EBLIF conventions (top model with a "
+           "bus input, primitives LEAF and AND2 with a 2-bit port, up to three instances of type .subckt/.gate with .cname "
+           "and .param, every way of tying pins to scalar and bus-indexed nets, unconnected pins); rendered by the "
+           "independent writer conform/eblif_text.py under a seeded sample of the options (comments, line continuations, "
+           "statement order, primitives declared or not, unconn actuals, a .conn alias placed before or after its uses), "
+           "parsed by the real reader; the parse results are also written by the real writer and read back; "
+           "distinct_nontrivial counts distinct (design, options) pairs",
     "C06": "abstract designs = reachable states of a build scope that follows spydrnet's Verilog conventions (leaf / mid with "
            "a 2-bit port / top with a 2-bit port, 2- and 3-bit wires; instances with every way of tying their pins to wire "
            "bits); each is rendered by the independent writer conform/verilog_text.py under a seeded sample of 12 of the 128 "
@@ -187,7 +198,7 @@ def _c13_detail(sig, rec):
 
 
 def _detail(sig, clause, rec, header):
-    if clause.startswith("C06") or clause.startswith("C04"):
+    if clause.startswith("C06") or clause.startswith("C04") or clause.startswith("C18"):
         o = rec.get("call", {}).get("opts") or next((c.get("opts") for c in reversed(header.get("h_all", [])) if c.get("opts")), {})
         sig["opts_on"] = sorted(k for k, v in (o or {}).items() if v is True or v == "reversed")
         sig["exception"] = rec.get("exc", "")
@@ -325,4 +336,4 @@ def ir_history(pid, tier, seed, replay=None, runs=None, strict=True):
 
 
 HANDLERS = {"C01": ir_history, "C02": ir_history, "C14": ir_history, "C10": ir_history, "C19": ir_history, "C11": ir_history,
-            "C12": ir_history, "C08": ir_history, "C09": ir_history, "C07": ir_history, "C13": ir_history, "C20": ir_history, "C05": ir_history, "C03": ir_history, "C17": ir_history, "C06": ir_history, "C04": ir_history}
+            "C12": ir_history, "C08": ir_history, "C09": ir_history, "C07": ir_history, "C13": ir_history, "C20": ir_history, "C05": ir_history, "C03": ir_history, "C17": ir_history, "C06": ir_history, "C04": ir_history, "C18": ir_history}
